@@ -388,12 +388,14 @@ func run(t *vlib.T) {
 		}
 		for _, pf := range prefills {
 			limit, pf := limit, pf
-			var rec func(seq []lookup)
-			rec = func(seq []lookup) {
+			// thorough: lengths 2..depth-1 over alpha x alpha x small…; the deepest length over
+			// alpha x small x small x small (first limit only), so that the tier completes
+			var rec func(seq []lookup, maxDepth, emitFrom int, smallFrom int)
+			rec = func(seq []lookup, maxDepth, emitFrom int, smallFrom int) {
 				if t.Stopped() {
 					return
 				}
-				if len(seq) >= 2 {
+				if len(seq) >= 2 && len(seq) >= emitFrom {
 					s := append([]lookup{}, seq...)
 					d := dev
 					if t.Thorough() && (len(s) == depth || limit != limits[0]) {
@@ -403,22 +405,25 @@ func run(t *vlib.T) {
 						return exploreHistory(limit, pf, s, d, objs)
 					})
 				}
-				if len(seq) == depth {
+				if len(seq) == maxDepth {
 					return
 				}
-				// the deepest level of the thorough tier uses the smaller (quick) alphabet
 				al := alpha
-				if t.Thorough() && len(seq) >= 2 {
+				if t.Thorough() && len(seq) >= smallFrom {
 					al = alphaSmall
 				}
-				if t.Thorough() && limit != limits[0] && len(seq) == depth-1 {
-					return // the second limit is explored one level less deep
-				}
 				for _, l := range al {
-					rec(append(seq, l))
+					rec(append(seq, l), maxDepth, emitFrom, smallFrom)
 				}
 			}
-			rec(nil)
+			if !t.Thorough() {
+				rec(nil, depth, 2, 0)
+			} else {
+				rec(nil, depth-1, 2, 2)
+				if limit == limits[0] {
+					rec(nil, depth, depth, 1)
+				}
+			}
 		}
 	}
 
